@@ -78,8 +78,13 @@ theorem load_registry_is_modelled :
 
 /-- every function the `_load_*` bodies call is one of the primitives the model has (AST, generated):
 no import, no attribute lookup on loaded data other than `.decode`, no call of loaded data -/
-theorem loader_calls_allowed : Gen.loaderCalls.all (fun c => Gen.loaderCallsAllowed.contains c) = true := by
+theorem loader_calls_allowed : Gen.loaderCalls.all (fun c => Brine.loaderCallsAllowed.contains c) = true := by
   decide
+
+/-- observed, not read off the source: while the live `brine.load` decoded a fixed corpus of valid, truncated and
+mutated encodings (including byte strings that spell pickles and dotted names) the interpreter's audit hooks reported no
+import, exec, compile, open, os/subprocess/socket/ctypes/pickle event ("never imports or executes anything", measured) -/
+theorem decode_audit_silent : Gen.decodeAuditEvents = [] := by decide
 
 /-- the dump registry and `simple_types` cover exactly the twelve modelled types -/
 theorem dump_registry_is_modelled :
